@@ -216,12 +216,44 @@ Theorem C04_arange_count : forall start stop p q, p <> 0 ->
 Proof. exact arange_len_spec. Qed.
 Print Assumptions C04_arange_count.
 
+(* elements of arange: exact for every dtype and step except an integer negative step with a floating dtype *)
+Theorem C04_arange_element_on_domain : forall fl start p q i, 0 < q -> 0 <= i ->
+  (q = 1 -> fl = true -> 0 <= p /\ i * p < 2 ^ 64) ->
+  arange_elem_cxx fl start p q i = arange_elem start p q i.
+Proof. exact arange_elem_cxx_spec. Qed.
+Print Assumptions C04_arange_element_on_domain.
+
+Theorem C04_arange_float_negative_int_step_refuted : exists start p i,
+  0 <= i /\ arange_elem_cxx true start p 1 i <> arange_elem start p 1 i.
+Proof. exists 3, (-2), 1. split; [lia|]. vm_compute. discriminate. Qed.
+Print Assumptions C04_arange_float_negative_int_step_refuted.
+
 Theorem C04_linspace_element : forall start stop num endpoint i, 1 <= num -> 0 <= i < num ->
   let m := linspace_elem start stop num endpoint i in
   let sp := np_linspace_elem start stop num endpoint i in
   snd m <> 0 /\ snd sp <> 0 /\ fst m * snd sp = fst sp * snd m.
 Proof. exact linspace_elem_spec. Qed.
 Print Assumptions C04_linspace_element.
+
+(* ---------- element types of the joining views (concatenate, stack family, where) ---------- *)
+(* an element n of an operand of type a, joined with an operand of type b (either order), is copied exactly: under C++'s
+   common type whenever it agrees with NumPy's result type or n is float32-representable; under NumPy's result type always *)
+Theorem C04_join_elements_on_domain : forall a b n, value_in a n -> round_sig 53 n = n ->
+  (cxx_common a b = np_common a b \/ round_sig 24 n = n) ->
+  conv (cxx_common a b) n = n /\ conv (np_common a b) n = n
+  /\ conv (cxx_common b a) n = n /\ conv (np_common b a) n = n.
+Proof. exact join_copy. Qed.
+Print Assumptions C04_join_elements_on_domain.
+
+(* the full statement fails: meta::common_type gives float for int32 / int64 with float (NumPy: float64), so an integer
+   above 2^24 is rounded: 16777217 joined with a float32 array reads back as 16777216 *)
+Theorem C04_int_float32_common_type_refuted : exists a b n,
+  value_in a n /\ round_sig 53 n = n /\ conv (np_common a b) n = n /\ conv (cxx_common a b) n <> n.
+Proof.
+  exists I32, F32, (4 * 16777217). split; [split; [reflexivity | change (2 ^ (width I32 - 1)) with 2147483648; change (4 * 16777217 / 4) with 16777217; lia]|].
+  split; [reflexivity|]. split; [reflexivity|]. vm_compute. discriminate.
+Qed.
+Print Assumptions C04_int_float32_common_type_refuted.
 
 (* ---------- non-vacuity ---------- *)
 Example C04_nonvacuous_tile : pos [2;3] /\ shape_tile [2;3] [2;1;2] = [2;2;6] /\ inb [1;1;4] [2;2;6]
@@ -262,6 +294,9 @@ Example C04_nonvacuous_sw : shape_sliding_window_axes [3;4] [2] [-1] = Val [3;3;
   /\ sliding_window_axes_index 2 [2;1;1] [-1] = [2;2] /\ expand_index [2;3] [1;2] [-1] [1] = Some [1;1]
   /\ expand_index [2;3] [1;1] [-1] [1] = None /\ diagonal_index 2 [1] 1 0 1 = [1;2].
 Proof. repeat split. Qed.
+Example C04_nonvacuous_dtype : cxx_common I64 F32 = F32 /\ np_common I64 F32 = F64 /\ cxx_common I8 I64 = I64
+  /\ conv (cxx_common I32 F32) (-9) = -9 /\ conv I32 (-9) = -8 /\ conv F32 (4 * 16777217) = 4 * 16777216.
+Proof. witness. Qed.
 Example C04_nonvacuous_tril : inb [1;2] [3;3] /\ tril_index [3;3] [1;2] 0 = None /\ tril_index [3;3] [2;1] 0 = Some [2;1]
   /\ triu_index [3;3] [1;2] 0 = Some [1;2].
 Proof. repeat split; try (repeat constructor; lia). Qed.
